@@ -32,6 +32,7 @@ ARCH_VOCAB = [
     Sym("containing_modules", ["ba"]),
     Sym("containing_modules", ["a", "ba"]),
     Sym("containing_modules", "mod"),
+    Sym("containing_modules", []),
     Sym("have_modules_with_names_matching", "a.*"),
     Sym("with_layer"),
 ]
@@ -77,7 +78,20 @@ def rule_outcome(seq_or_len, prefix=()):
     def resolve(a):
         return _mk_arch() if a == "ARCH" else a
 
+    made = []
+
+    def resolve(a):  # noqa: F811 - remembers the architecture objects handed to the rule
+        if a == "ARCH":
+            made.append(_mk_arch())
+            return made[-1]
+        return a
+
     hist, expects, final, real, obj, aut = play(seq_or_len, LAYER_VOCAB, _mk_layer_rule, lambda: LayerRuleAutomaton({"A", "B"}), None, resolve, prefix)
+    # building (and half-building) rules must leave the shared LayeredArchitecture exactly as it was defined
+    want_render = str(_mk_arch())
+    for arch in made:
+        if str(arch) != want_render:
+            return ("MISMATCH", want_render, str(arch))
     exp = expects[0] if expects else None
     if real[0] == "RAISED":
         kind = "CONFIG" if real[2] == "ImproperlyConfigured" else "OTHER"
